@@ -2,6 +2,8 @@ package props
 
 import (
 	"fmt"
+	"os"
+	"path/filepath"
 	"strings"
 	"testing"
 	"time"
@@ -374,6 +376,89 @@ func genLimitSeq(t *rapid.T, maxDepth int, gen func(*rapid.T) rc.Pos) limitSeqCa
 	return c
 }
 
+// ---- clock mode, measured: the time really used never exceeds the time on the mover's clock ------------
+// (the allotted time is the budget PLUS whatever the engine adds later: after a book move the first
+// searched move gets "extra time")
+
+type clockCase struct {
+	Fen       string `json:"fen"`
+	ClockMs   int    `json:"clock_ms"`
+	IncMs     int    `json:"inc_ms"`
+	MovesToGo int    `json:"movestogo"`
+	AfterBook bool   `json:"after_book_move"` // an earlier search of the same engine instance was answered from the opening book
+}
+
+func propC13Clock(c clockCase, o *hx.Obs) *hx.Failure {
+	save := config.Settings
+	defer func() { config.Settings = save }()
+	rp := rc.MustParse(c.Fen)
+	if len(rp.Legal()) < 2 {
+		return nil
+	}
+	allowance := 250 * time.Millisecond
+	run := func() (time.Duration, bool, string) {
+		config.Settings = save
+		if c.AfterBook {
+			dir, err := os.MkdirTemp("", "verifclockbook")
+			if err != nil {
+				panic(err)
+			}
+			defer os.RemoveAll(dir)
+			if err := os.WriteFile(filepath.Join(dir, "b.txt"), []byte("e2e4 e7e5\nd2d4 d7d5\n"), 0o644); err != nil {
+				panic(err)
+			}
+			config.Settings.Search.UseBook = true
+			config.Settings.Search.BookPath = dir
+			config.Settings.Search.BookFile = "b.txt"
+			config.Settings.Search.BookFormat = "Simple"
+		}
+		s := search.NewSearch()
+		d := &hx.Driver{}
+		s.SetUciHandler(d)
+		defer s.StopSearch()
+		lim := hx.LimSpec{Mode: "clock", WTime: c.ClockMs, BTime: c.ClockMs, WInc: c.IncMs, BInc: c.IncMs, MovesToGo: c.MovesToGo, StopAfterMs: -1, PonderHitAfterMs: -1}
+		if c.AfterBook {
+			sp := rc.MustParse(rc.StartFEN)
+			out := hx.RunSearch(s, d, hx.NewPos(rc.StartFEN), &sp, lim, 30*time.Second)
+			if out.Hung || len(out.Sent) == 0 {
+				return 0, false, "book search not answered"
+			}
+			if !out.Result.BookMove {
+				return 0, false, "no book move in the start position"
+			}
+		}
+		out := hx.RunSearch(s, d, hx.NewPos(c.Fen), &rp, lim, 30*time.Second)
+		if out.Hung || len(out.Sent) == 0 {
+			return 0, false, "no result within 30 s"
+		}
+		return out.Duration, true, ""
+	}
+	ctx := fmt.Sprintf("%s clock %d ms inc %d ms movestogo %d after-book-move=%v", c.Fen, c.ClockMs, c.IncMs, c.MovesToGo, c.AfterBook)
+	dur, ok, why := run()
+	o.Evals(1)
+	if !ok {
+		return hx.Failf("C13/clock/no-result", "%s: %s", ctx, why)
+	}
+	limit := time.Duration(c.ClockMs)*time.Millisecond + allowance
+	if dur > limit {
+		time.Sleep(300 * time.Millisecond)
+		dur2, ok2, _ := run()
+		if !ok2 || dur2 > limit {
+			how := "plain"
+			if c.AfterBook {
+				how = "after-book-move"
+			}
+			return hx.Failf("C13/clock/uses-more-than-the-clock-"+how, "%s: best move after %v and %v - more than the %d ms on the clock (+%v allowance)", ctx, dur, dur2, c.ClockMs, allowance)
+		}
+		o.Label("clock-late-once-not-confirmed")
+	}
+	o.Label(fmt.Sprintf("limit:clock-measured-afterbook-%v", c.AfterBook))
+	if float64(dur) > 0.5*float64(time.Duration(c.ClockMs)*time.Millisecond) {
+		o.NTKey(ctx) // the search really was ended by its time budget (not by itself)
+	}
+	return nil
+}
+
 func tailLines(ls []hx.OutLine, n int) string {
 	if len(ls) > n {
 		ls = ls[len(ls)-n:]
@@ -476,6 +561,15 @@ func TestC13(t *testing.T) {
 	}, propC13Limit)
 	hx.Sub(r, "limit-sequences", r.N(250, 3000), func(t *rapid.T) limitSeqCase { return genLimitSeq(t, r.N(4, 5), genPos) }, propC13Seq)
 	// (b) timing: few, serial
+	hx.Sub(r, "clock-measured", r.N(16, 120), func(t *rapid.T) clockCase {
+		p := rc.MustParse(hx.GenSeedFEN(t))
+		for tries := 0; len(p.Legal()) < 10 && tries < 8; tries++ {
+			p = rc.MustParse(hx.GenSeedFEN(t))
+		}
+		clk := rapid.IntRange(400, 700).Draw(t, "clock")
+		return clockCase{Fen: p.FEN(), ClockMs: clk, IncMs: rapid.SampledFrom([]int{0, 0, clk, 3 * clk}).Draw(t, "inc"),
+			MovesToGo: rapid.SampledFrom([]int{1, 1, 1, 2, 0}).Draw(t, "mtg"), AfterBook: rapid.Bool().Draw(t, "afterBook")}
+	}, propC13Clock)
 	hx.Sub(r, "movetime", r.N(20, 150), func(t *rapid.T) limitCase {
 		p := rc.MustParse(hx.GenSeedFEN(t))
 		return limitCase{Fen: p.FEN(), Kind: "movetime", Value: rapid.IntRange(20, 200).Draw(t, "ms")}
